@@ -57,34 +57,40 @@ pub fn two_orbits(ops: &Vec<Vec<usize>>) -> Vec<(usize, Vec<usize>)> {
 /// calls `f` for every assignment of branching values from `vals` to the 2-orbits;
 /// `max_branched` limits how many orbits may get a value other than vals[0]
 pub fn for_each_branching(ops: &Vec<Vec<usize>>, vals: &[usize], max_branched: usize, f: &mut dyn FnMut(&RS)) {
+    // every assignment of vals[..] to the 2-orbits in which at most `max_branched` orbits get a value other than
+    // vals[0]; enumerated by recursion over the orbits with a budget, so that a small budget costs little however
+    // many orbits and values there are
     let n = ops[0].len();
     let dim = ops.len() - 1;
     let orbs = two_orbits(ops);
     let total = orbs.len();
     let mut idx = vec![0usize; total];
-    loop {
-        if idx.iter().filter(|&&x| x != 0).count() <= max_branched {
-            let mut v = vec![vec![0; n]; dim];
-            for (k, (i, mem)) in orbs.iter().enumerate() {
-                for &d in mem {
-                    v[*i][d] = vals[idx[k]];
-                }
-            }
-            f(&RS { n, ops: ops.clone(), v });
+    fn rec(k: usize, budget: usize, idx: &mut Vec<usize>, nvals: usize, emit: &mut dyn FnMut(&Vec<usize>)) {
+        if k == 0 {
+            emit(idx);
+            return;
         }
-        let mut p = 0;
-        loop {
-            if p == total {
-                return;
-            }
-            idx[p] += 1;
-            if idx[p] < vals.len() {
-                break;
+        let p = k - 1;
+        idx[p] = 0;
+        rec(p, budget, idx, nvals, emit);
+        if budget > 0 {
+            for v in 1..nvals {
+                idx[p] = v;
+                rec(p, budget - 1, idx, nvals, emit);
             }
             idx[p] = 0;
-            p += 1;
         }
     }
+    let mut emit = |idx: &Vec<usize>| {
+        let mut v = vec![vec![0; n]; dim];
+        for (k, (i, mem)) in orbs.iter().enumerate() {
+            for &d in mem {
+                v[*i][d] = vals[idx[k]];
+            }
+        }
+        f(&RS { n, ops: ops.clone(), v });
+    };
+    rec(total, max_branched.min(total), &mut idx, vals.len(), &mut emit);
 }
 
 pub fn ops_connected(ops: &Vec<Vec<usize>>) -> bool {
